@@ -35,19 +35,28 @@ impl<I: PollSyscall> PollSyscall for NioPollSyscall<I> {
         nfds: nfds_t,
         timeout: c_int,
     ) -> c_int {
-        let mut t = if timeout < 0 { c_int::MAX } else { timeout };
+        // `None`: wait forever
+        let timeout_time = u64::try_from(timeout)
+            .ok()
+            .map(|ms| crate::common::get_timeout_time(Duration::from_millis(ms)));
         let mut x = 1;
         let mut r;
         // just check poll every x ms
         loop {
             r = self.inner.poll(fn_ptr, fds, nfds, 0);
-            if r != 0 || t == 0 {
+            if r != 0 {
                 break;
             }
-            _ = EventLoops::wait_event(Some(Duration::from_millis(t.min(x).try_into().expect("overflow"))));
-            if t != c_int::MAX {
-                t = if t > x { t - x } else { 0 };
+            // the time left is measured, not assumed: a slice takes longer than
+            // its nominal length, and the difference must not add up
+            let left_time = timeout_time
+                .map_or(u64::MAX, |t| t.saturating_sub(crate::common::now()));
+            if left_time == 0 {
+                break;
             }
+            _ = EventLoops::wait_event(Some(
+                Duration::from_nanos(left_time).min(Duration::from_millis(x)),
+            ));
             if x < 16 {
                 x <<= 1;
             }
